@@ -238,8 +238,11 @@ class Track:
                     #--------------------------------------------------------------------------------
                     # Special case to handle zero-duration events: continue to pop new
                     # events from the pattern.
+                    #
+                    # Durations are converted to a whole number of ticks, rounding first so that
+                    # a product such as 0.29 * 100 = 28.999999999999996 counts as 29 ticks.
                     #--------------------------------------------------------------------------------
-                    while int(self.current_event.duration * self.timeline.ticks_per_beat) <= 0:
+                    while int(round(self.current_event.duration * self.timeline.ticks_per_beat, 8)) <= 0:
                         self.current_event = self.next_event
                         self.next_event = self.get_next_event()
 
@@ -248,7 +251,7 @@ class Track:
 
                     interpolating_event_fields = copy.copy(self.current_event.fields)
                     duration = self.current_event.duration
-                    duration_ticks = duration * self.timeline.ticks_per_beat
+                    duration_ticks = int(round(duration * self.timeline.ticks_per_beat, 8))
                     for key, value in self.current_event.fields.items():
                         #--------------------------------------------------------------------------------
                         # Create a new interpolating_event with patterns for each parameter to
